@@ -121,6 +121,13 @@ Proof.
 Qed.
 Print Assumptions C18_isclose_nonfinite_elements.
 
+(* aliasing is not an input: the answer is a function of (shape, values, eps).  In particular an array compared with ITSELF
+   is close exactly when eps > 0 and all its elements are finite — not when it holds a NaN or an infinity, not for eps <= 0 *)
+Theorem C18_isclose_self_comparison : forall nd eps s d, wfb (Arr s d) = true ->
+  isclose nd eps (Arr s d) (Arr s d) = Ret ((0 <? eps) && forallb finitez d).
+Proof. exact isclose_self. Qed.
+Print Assumptions C18_isclose_self_comparison.
+
 (* integer element types.  Every integer comparison is carried out in meta::common_type_t of the two element types
    (the wider width, signed when either is signed).  A comparison in a type in which both values are representable is
    the comparison of the values — the model's mathematical integers ... *)
